@@ -10,8 +10,8 @@ CLAIMED={
         "Trusted: engine, interpreted net/http request parser, cvc5/z3. Out: http.Transport serialisation and Accept-Encoding, the upstream-proxy transport, real TLS, bodies near the 4 KiB/32 KiB buffers."),
  "C02":("Responses of a scripted origin pass through the real connection loop and are parsed back by an HTTP/1 client parser: status, end-to-end fields, body bytes, trailers, framing per client version, k-th response for k-th request, nothing beyond the messages; incremental delivery of event streams and chunked bodies is decided by observing what the client holds each time the proxy asks the origin for more.",
         "Trusted: engine, interpreted net/http writer and reader, cvc5/z3. Out: gzip handling in Transport, wall-clock timing, bodies around 4 KiB/32 KiB, the http.Handler variant."),
- "C03":("CONNECT and 101-upgrade tunnels through the real connection loop between scripted endpoints: every byte once and in order incl. early data on both sides, end-of-stream after the last byte, both sockets closed, no request-phase deadline left armed; through an upstream HTTP proxy (and an https one under the transparent-TLS model); with both copy directions alive at once - blocking endpoints driven by the harness in all 6 orders of (send, half-close) x 2 endpoints, and a >16 KiB chunk pending in one direction while the other carries data.",
-        "Trusted: engine incl. its cooperative scheduler (one schedule per path; event order chosen by the harness and enforced natively too), cvc5/z3. Out: preemption inside a copier, real sockets and FIN ordering, the forced close after the grace period, SOCKS5, real TLS."),
+ "C03":("CONNECT and 101-upgrade tunnels through the real connection loop between scripted endpoints: every byte once and in order incl. early data on both sides, end-of-stream after the last byte, both sockets closed, no request-phase deadline left armed; through an upstream HTTP proxy, a socks5 proxy (real x/net client) and an https proxy under the transparent-TLS model; with both copy directions alive at once - blocking endpoints driven by the harness in all 6 orders of (send, half-close) x 2 endpoints, and a >16 KiB chunk pending in one direction while the other carries data.",
+        "Trusted: engine incl. its cooperative scheduler (one schedule per path; event order chosen by the harness and enforced natively too), cvc5/z3. Out: preemption inside a copier, real sockets and FIN ordering, the forced close after the grace period, real TLS."),
  "C04":("Access control is complete: credential parsing against a reference decoder, localhost spellings incl. hosts-file aliases through the real constructor, time frames, all 16 combinations of the four controls through the real modifier stack and error-response path, two requests of 7 kinds on one connection, and requests inside an intercepted tunnel (plaintext and transparent-TLS).",
         "Trusted: engine + base64/ConstantTimeCompare/regexp models (differential self-test on every run), interpreted net/http, cvc5/z3. Out: real TLS, DNS-level aliases of loopback, deny-domain regexps themselves (C17)."),
  "C05":("Routing follows the configuration: PAC answer parsing and mapping against an independent reference, the ProxyFunc wrappers for none/static/PAC x direct-domains x localhost modes, CONNECT dial targets, connect-to rules on all rule tables of <=2 rules.",
